@@ -366,3 +366,22 @@ for meth, first, tag in (('_print', 'PRINT', 'command'), ('_println', 'PRINTLN',
     c.name += ' (dispatch)'
     if meth == '_printf':
         c.ensures('one-printf-phrase', "result is True ==> len(emitted(self)) == 1 and is_seg(emitted(self)[0], 'printf')")
+
+
+# ---- `with v from A to B`: both bounds are values of the state BEFORE the loop variable is set (B may mention v's old value)
+LPP = 'bardolph/parser/loop_parser.py'
+for ltype in ('WITH', 'COUNTED'):
+    c = sub(LPP, 'LoopParser', '_index_var_range', serves=('C06', 'C04', 'C02'),
+            extra=lambda b, pr, ltype=ltype: {'code_gen': pr.attrs['_code_gen']})
+    c.name += '[%s]' % ltype
+    def _setup2(b, case, ltype=ltype, inner=c.setup_fn):
+        d = inner(b, case)
+        lp = d['self']
+        lp.attrs['_loop_type'] = b.enum('bardolph.parser.loop_parser', '_LoopType', ltype)
+        lp.attrs['_index_var'] = b.sym('str', 'index_var')
+        d['_v'] = lp.attrs['_index_var']
+        return d
+    c.setup(_setup2)
+    c.ensures('both-bounds-first-then-the-variable',
+              "result is True ==> is_seg(emitted(_p)[0], 'value') and is_seg(emitted(_p)[1], 'value') and instr(emitted(_p)[2], 'MOVE', LoopVar.FIRST) "
+              "and emitted(_p)[2].param1 == _v and no_instr(emitted(_p)[3:], 'MOVE')")
